@@ -200,7 +200,7 @@ def judge(case, faults, out, n_optimizer_evaluations):
     return vs
 
 
-def run_and_judge(case, dev, N):
+def run_and_judge(case, dev, N, watchdog_s=None):
     """one faulted run + verdict.  Runs with a non-finite matrix are executed in a forked child under a watchdog:
     numpy/LAPACK can spin forever on a non-finite Jacobian and such a hang cannot be interrupted in-process."""
     import os
@@ -229,7 +229,7 @@ def run_and_judge(case, dev, N):
         os._exit(0)
     os.close(w)
     chunks = []
-    deadline = WATCHDOG_S
+    deadline = watchdog_s or WATCHDOG_S
     import time
 
     t0 = time.time()
@@ -252,7 +252,7 @@ def run_and_judge(case, dev, N):
         os.kill(pid, signal.SIGKILL)
     os.waitpid(pid, 0)
     if hung:
-        return [V("optimize-hangs/non-finite-matrix", faults=dev, watchdog_s=WATCHDOG_S)], "hang"
+        return [V("optimize-hangs/non-finite-matrix", faults=dev, watchdog_s=deadline)], "hang"
     return pickle.loads(b"".join(chunks))
 
 
@@ -261,7 +261,13 @@ WATCHDOG_S = 8.0
 
 def case_faults(case):
     """all single (thorough: pairs of) deviations for one configuration"""
+    import time as _time
+
+    t0 = _time.time()
     base = run_with_faults(case, {})
+    t_base = _time.time() - t0
+    # the watchdog scales with the measured duration of the fault-free run (a loaded machine must not turn a slow run into a "hang")
+    watchdog = max(WATCHDOG_S, 60.0 * t_base)
     if base["exc"] is not None or base["result"] is None:
         return core.ok(key=None, outcome="baseline-failed", violations=[V("fault-free-run-failed", exc=repr(base["exc"])[:300])])
     N = base["plan"].n
@@ -286,7 +292,7 @@ def case_faults(case):
     outcomes = set()
     runs = 0
     for dev in deviations:
-        v, oc = run_and_judge(case, dev, n_opt)
+        v, oc = run_and_judge(case, dev, n_opt, watchdog)
         runs += 1
         outcomes.add(oc)
         for x in v:
